@@ -62,6 +62,21 @@ class Report:
         self.obs.append(o)
         return o
 
+    def dedupe(self):
+        """Obligations with the same key (an inherited method analysed for several concrete classes)
+        are merged; the worst verdict wins."""
+        rank = {DISCHARGED: 0, UNDECIDED: 1, VIOLATED: 2}
+        best: Dict[str, Ob] = {}
+        order = []
+        for o in self.obs:
+            k = o.key()
+            if k not in best:
+                best[k] = o
+                order.append(k)
+            elif rank[o.verdict] > rank[best[k].verdict]:
+                best[k] = o
+        self.obs = [best[k] for k in order]
+
     def ok(self, rule, fi_or_mod, construct, detail="", line=0, **kw):
         return self._add(rule, fi_or_mod, construct, DISCHARGED, detail, line, **kw)
 
@@ -107,6 +122,7 @@ class Report:
 
     # ---- finishing --------------------------------------------------------------------------
     def finish(self, write=True, quiet=False) -> int:
+        self.dedupe()
         known = load_known()
         viol = [o for o in self.obs if o.verdict == VIOLATED]
         matched, fresh = [], []
